@@ -2,7 +2,7 @@
 from . import instr_targets as I
 
 LEVEL = 'proof'
-TAGS = ('C18', 'defined', 'idle')
+TAGS = ('C18', 'defined', 'idle', 'C22')
 TRUSTED = I.COMMON_TRUSTED
 ASSUMPTIONS = ['a step produces fewer lines than the ring buffers hold',
                'decoration is uniform: either every state function of a chart carries @spy_on or none does (a chart whose '
@@ -14,4 +14,9 @@ MIN_OBLIGATIONS = 10
 
 def build(src, tier):
     out = I.family(src, tier)
+    # guards written with is_in / child_state must answer alike on decorated and undecorated charts: the queries on
+    # spy-decorated charts (their answers against the tree, the chart left unchanged) are part of this property
+    from . import core_targets as K
+    ws = K.world_for(src, tier, spied=True)
+    out += [(ws, [K.t_query_spied('is_in'), K.t_query_spied('child_state')])]
     return out
